@@ -1,6 +1,6 @@
 (* Properties/C18.v — Document sets select by tag, keep insertion order and honour the re-add policy. *)
 From Coq Require Import List String Bool ZArith Arith Permutation.
-From YT Require Import Base.Str Base.KV Model.Doc Model.Dom Model.Overlay Model.DocSet Proofs.OverlayProofs Proofs.DocSetProofs.
+From YT Require Import Base.Str Base.KV Model.Doc Model.Dom Model.Overlay Model.DocSet Proofs.OverlayProofs Proofs.DocSetProofs Proofs.DocSetHistoryProofs.
 Import ListNotations.
 Local Open Scope list_scope.
 
@@ -180,3 +180,25 @@ Example C18_batch_ex :
    DObsOverlay ["/t/1.yaml"; "/t/m.yaml/i.json"; "/t/p.yaml"]%string
      [d1; d2; Con [("a"%string, Con [("b"%string, Leaf (SStr "1")); ("c"%string, Lst [Leaf SNull; Leaf (SStr "z")])])]]].
 Proof. vm_compute. reflexivity. Qed.
+
+(* ---------- histories of ANY length (single adds, unnamed adds, the batch forms, reads, in any mixture): the list of names
+   only ever grows at its END, so the order in which names were first inserted — the order LayerNames() of every subset
+   follows (C18_filtered_names) — is never disturbed by later adds or re-adds, however many there are. *)
+Theorem C18_names_only_grow_at_the_end : forall ds ops,
+  exists suf, ds_names (ds_after ds ops) = ds_names ds ++ suf.
+Proof. intros ds ops. exact (history_extends ops ds). Qed.
+Print Assumptions C18_names_only_grow_at_the_end.
+Theorem C18_first_insertion_order_is_stable : forall ds ops,
+  exists suf, first_order (ds_names (ds_after ds ops)) = first_order (ds_names ds) ++ suf.
+Proof. exact first_order_stable. Qed.
+Print Assumptions C18_first_insertion_order_is_stable.
+
+(* non-vacuity: three names added in non-alphabetical order and re-added round-robin, 72 adds in all *)
+Example C18_long_history_ex :
+  let d := Con [("k"%string, Leaf (SInt 1))] in
+  let round := [DAdd "zulu" d [] PNone; DAdd "mike" d ["t"%string] PMergeTags; DAdd "alpha" d [] PNone] in
+  let ops := List.concat (List.repeat round 24) in
+  List.length ops = 72 /\
+  layer_names (ds_as_one (ds_after ds_empty ops)) = ["zulu"; "mike"; "alpha"]%string /\
+  first_order (ds_names (ds_after ds_empty ops)) = ["zulu"; "mike"; "alpha"]%string.
+Proof. vm_compute. repeat split; reflexivity. Qed.
